@@ -111,6 +111,11 @@ class FakeSock:
             raise OSError(errno.EBADF, "Bad file descriptor")
         if self.shut:
             raise BrokenPipeError(errno.EPIPE, "Broken pipe")
+        self.send_calls = getattr(self, "send_calls", 0) + 1
+        if getattr(self, "fail_send_at", None) == self.send_calls - 1:
+            # injected write fault: this one send() times out (the peer's window is closed), nothing is taken
+            self.log.append(("WT",))
+            raise socket.timeout("timed out")
         data = bytes(data)
         k = len(data)
         if self.accept is not None and data:
